@@ -24,6 +24,28 @@ EXPLANATION = ("Theorems about Story.deliver and its lifting to continue_interna
                "messages newly readable in the run without handler, each once.")
 
 
+
+def sliced_cause(ma, mc, enda, endc, tailc):
+    """Classify a difference between blocking (ma) and sliced (mc) deliveries, continue by continue.
+    'lookahead-warning-early-duplicate': same end, same errors, and the sliced run delivers exactly the blocking
+    deliveries PLUS warnings that the blocking run delivers in a LATER continue (a pause inside the look-ahead past a
+    line end hands over a warning that the rewind raises again) - known finding C13-lookahead-warning-sliced.
+    Anything else (a message lost, an error repeated, a warning repeated after its line, another end) is 'other'."""
+    if enda != endc or any(t for t in tailc) or len(ma) != len(mc):
+        return "other"
+    for i, (a, c) in enumerate(zip(ma, mc)):
+        extra = list(c)
+        for m in a:
+            if m in extra:
+                extra.remove(m)
+            else:
+                return "other"            # something the blocking run delivered here is missing
+        later = [m for x in ma[i + 1:] for m in x]
+        for m in extra:
+            if m[0] != "W" or m not in later:
+                return "other"
+    return "lookahead-warning-early-duplicate"
+
 def run_story(story, choices_seed, handler, scratch, sliced=False):
     """Play with fixed random choices; returns (ops, results, per-continue message lists)."""
     sess = play.RtSession()
@@ -139,7 +161,7 @@ def one_case(job):
                                        "ops": sc.ops[:400],
                                        "why": "with time-sliced continues the deliveries differ from blocking play "
                                               "(lost, repeated, or the story went on after an error)"},
-                                      {"kind": "sliced-delivery"}))
+                                      {"kind": "sliced-delivery", "cause": sliced_cause(ma, mc, enda, endc, tailc)}))
         rm = play.run_model(sc.ops, scratch, tag=f"c13s-{cseed}")
         d = play.first_diff(sc.ops, sc.results, rm)
         if d and not res["corr"]:
@@ -214,6 +236,7 @@ def run(ctx):
     probe_warnings(ctx)
     pool = stories.generated_pool(ctx, "errors", 60 if quick else 1500)
     pool += stories.generated_pool(ctx, "core", 15 if quick else 300)
+    pool += [s for s in stories.probe_pool(ctx, "c13") if "lookahead" in (s.get("ink") or "")]
     pool += [s for s in stories.corpus_pool(ctx, reference=False)][: (40 if quick else 200)]
     jobs = [(s, ctx.seed * 4099 + si * 13 + w, ctx.scratch) for si, s in enumerate(pool)
             for w in range(1 if quick else 3)]
